@@ -768,7 +768,9 @@ func (cc *ChunkCollection) generateTableOfContents(opts MarkdownOptions) string 
 
 		// Calculate indent based on heading level
 		level := chunk.Metadata.HeadingLevel
-		if level == 0 {
+		if level < 1 {
+			// no explicit level, or a negative one (strings.Repeat panics on a
+			// negative count)
 			level = 1
 		}
 		indent := strings.Repeat("  ", level-1)
